@@ -6,7 +6,7 @@ from runner import Case, CaseSet
 from props.c02 import py_delta, sequences
 
 ID = 'C01'
-OBLIGATIONS = ['Props/C01.v', 'Props/Tie/charge_tie.v', 'Props/Tie/delta_formulas_tie.v', 'Props/Tie/deltamax_tie.v']
+OBLIGATIONS = ['Props/C01.v', 'Props/Tie/charge_tie.v', 'Props/Tie/delta_formulas_tie.v', 'Props/Tie/deltamax_tie.v', 'Props/Tie/minipy_delta_tie.v']
 RULE = ('exhaustive +/-/0 patterns of length 1..n (quick 8, thorough 10) — this includes, for every composition, its '
         'delta-maximising arrangement — plus random class sequences and homopolymers; per sequence get_kappa, get_delta, '
         'get_deltaMax; non-trivial = distinct sequence with N >= 6 and both a charged residue and delta-max > 0')
@@ -19,6 +19,7 @@ LEVEL_TEXT = ('Proof: sentinel <-> delta-max = 0, ratio-with-clamp, non-negativi
               'code: known finding D1. Tie: source arithmetic and candidate search translated and proved equal to the model '
               '(bounded grids); get_kappa/get_delta/get_deltaMax compared with the model inside Coq.')
 LEVEL_NOTE = 'Closed under the global context. D1 is a recorded known finding (known_findings.txt); any other out-of-range kappa is reported.'
+LEVEL_NOTE_MINIPY = ' Whole-function ties (minipy_delta_tie.v): sigma, deltaForm, delta and kappa are translated into Core/MiniPy.v terms on every run (every a / b read as exact rational division); for every charge pattern the translated code returns the model\'s sigma / deltaForm / delta, and kappa\'s sentinel (-1 iff deltaMax == 0) and clamp (1 iff strictly between 1 and 1.1) decisions are the model\'s, deltaMax being an oracle.'
 TECHNIQUE = 'Coq proof over Q + refutation witness + translator tie + in-Coq differential correspondence'
 
 IMPORTS = ('From Coq Require Import List ZArith QArith String.\n'
